@@ -15,8 +15,30 @@ Obligations on the regenerated step orders (`lock_order_*`): the writer lock is 
 `Tx::new` takes; `resize` takes the map write lock before the map-handle mutex; the header is read
 (map-handle mutex) inside the reader-list mutex and never the other way round — so the three short
 mutexes are leaf locks never held across a blocking acquisition of the two long-held locks.
+
+All five locks (`Jamm/Model/LockOrder.lean`, second half of this file): file mutex F, map rwlock M
+(read / write mode, both admission policies), reader-list mutex O, map-handle mutex D, free-list
+mutex L.  The thread programs are *computed* from the regenerated step tables
+(`genProgram k = program ⟨Gen.beginSteps, Gen.commitSteps, Gen.resizeSteps, Gen.dropSteps⟩ k`), so a change
+of the order in which the code takes its locks changes the programs the theorems are about.
+* every generated transaction program — reader, writer that rolls back, writer that commits along any
+  path (file grows or not, header re-read or not, free list published or not, error return after any
+  number of steps) — respects the lock order F < M < O < D < L (`generated_programs_ordered`);
+* any number of threads running any scripts of such transactions, under any schedule and either
+  admission policy, never reach a state in which somebody has work left and nobody can move
+  (`no_deadlock_five_locks`); every exclusive hold is exclusive, in particular at most one write
+  transaction is open, and M-write excludes readers (`writers_serialised_five_locks`); every step
+  consumes work, every reachable state can be run to completion and round-robin does so
+  (`all_threads_finish_five_locks`);
+* the order condition is not vacuous: with `resize` taking the map handle before the map write lock
+  the program is not `Ordered` and a growing commit deadlocks against a beginning reader
+  (`misordered_resize_deadlocks`); the generated programs nested on ONE thread (a write transaction,
+  or with a writer-preferring rwlock a second read transaction, opened while a read transaction is
+  open) are not `Ordered` and deadlock (`nested_write_in_read_deadlocks`,
+  `nested_read_in_read_deadlocks`) — the model assumes a thread has one transaction open at a time.
 -/
 import Jamm.Proofs.LockLemmas
+import Jamm.Proofs.LockOrderLemmas
 import Jamm.Proofs.ConcLemmas
 import Jamm.Gen.Steps
 set_option linter.unusedSectionVars false
@@ -65,5 +87,155 @@ theorem lock_order_drop : Gen.dropSteps = [.lockReaders, .findReader, .removeRea
 example :
     let s := LockSys.initial [[.write true], [.read], [.write false, .read]] false
     (s.run [1, 1, 0, 0, 0, 0, 2, 1, 0, 0, 2, 2, 2, 2, 2, 2]).allFinished = true := by decide
+
+/-! ### all five locks, programs derived from the regenerated step tables -/
+
+open Jamm.LockOrder (Lk Act Ordered Kind CommitPath Tables program beginActs dropActs openActs rounds)
+
+/-- the step tables the translator extracted from the source -/
+def genTables : Tables :=
+  { begin := Gen.beginSteps, commit := Gen.commitSteps, resize := Gen.resizeSteps, drop := Gen.dropSteps }
+
+/-- the lock actions of one transaction of kind `k`, according to the generated tables -/
+def genProgram (k : Kind) : List Act := program genTables k
+
+/-- the four complete paths: reader; writer that rolls back; writer whose commit does not / does have to
+grow the file -/
+theorem generated_programs_ordered_complete :
+    Ordered (genProgram .read) = true ∧
+    Ordered (genProgram (.write none)) = true ∧
+    Ordered (genProgram (.write (some (.full false)))) = true ∧
+    Ordered (genProgram (.write (some (.full true)))) = true := by decide
+
+/-- every path: also the publication decision after a failed header write (re-read of the header,
+publication or not) and an error return after any number of commit steps -/
+theorem generated_programs_ordered (k : Kind) : Ordered (genProgram k) = true := by
+  have key : ∀ n, n ≤ Gen.commitSteps.length → ∀ g r p : Bool,
+      Ordered (genProgram (.write (some ⟨g, r, p, some n⟩))) = true := by decide
+  cases k with
+  | read => decide
+  | write c =>
+    cases c with
+    | none => decide
+    | some c =>
+      obtain ⟨g, r, p, n⟩ := c
+      cases n with
+      | none => cases g <;> cases r <;> cases p <;> decide
+      | some n =>
+        by_cases h : n ≤ Gen.commitSteps.length
+        · exact key n h g r p
+        · have hn : genProgram (.write (some ⟨g, r, p, some n⟩)) =
+              genProgram (.write (some ⟨g, r, p, some Gen.commitSteps.length⟩)) := by
+            simp only [genProgram, program, LockOrder.commitActs, genTables]
+            rw [List.take_of_length_le (by omega), List.take_of_length_le (Nat.le_refl _)]
+            have hca : LockOrder.commitAct ⟨g, r, p, some n⟩ Gen.resizeSteps =
+                LockOrder.commitAct ⟨g, r, p, some Gen.commitSteps.length⟩ Gen.resizeSteps := by
+              funext st; cases st <;> rfl
+            rw [hca]
+          rw [hn]
+          exact key _ (Nat.le_refl _) g r p
+
+/-- `DBInner::open` (single-threaded) is the one place where two of the short mutexes nest: D, then L -/
+theorem open_ordered : Ordered (openActs Gen.openInner) = true := by decide
+
+/-- **no deadlock, five locks**: any number of threads, each running any script of transactions, either
+admission policy of the rwlock, any schedule: if some thread still has something to do, some thread
+can move -/
+theorem no_deadlock_five_locks (scripts : List (List Kind)) (admit : Bool) (sched : List Nat) :
+    let s := (LockOrder.Sys.ofScripts genProgram scripts admit).run sched
+    s.allFinished = false → ∃ i, s.enabled i = true :=
+  fun h => LockOrder.deadlock_free_inv _
+    (LockOrder.inv_ofScripts genProgram generated_programs_ordered scripts admit sched) h
+
+/-- the same for arbitrary programs: the only thing used about the generated ones is `Ordered` -/
+theorem no_deadlock_ordered (progs : List (List Act)) (admit : Bool)
+    (h : ∀ p ∈ progs, Ordered p = true) (sched : List Nat) :
+    let s := (LockOrder.Sys.init progs admit).run sched
+    s.allFinished = false → ∃ i, s.enabled i = true :=
+  LockOrder.deadlock_free_ordered progs admit h sched
+
+/-- **writers are serialised**: at most one thread holds the file mutex (= has a write transaction open);
+more generally every exclusive hold is exclusive, and while the map write lock is held nobody holds the
+map read lock -/
+theorem writers_serialised_five_locks (scripts : List (List Kind)) (admit : Bool) (sched : List Nat) :
+    let s := (LockOrder.Sys.ofScripts genProgram scripts admit).run sched
+    s.exHolders .F ≤ 1 ∧ (∀ l, s.exHolders l ≤ 1) ∧ (s.exHolders .M ≠ 0 → s.readers = 0) := by
+  have hinv := LockOrder.inv_ofScripts genProgram generated_programs_ordered scripts admit sched
+  exact ⟨LockOrder.exHolders_le_one _ hinv .F, LockOrder.exHolders_le_one _ hinv,
+    LockOrder.no_readers_while_write _ hinv⟩
+
+/-- **everybody finishes**: a step consumes work; from every reachable state some continuation of the
+schedule completes every transaction of every thread; and round-robin (a fair schedule) does so from the
+start -/
+theorem all_threads_finish_five_locks (scripts : List (List Kind)) (admit : Bool) :
+    (∀ (s : LockOrder.Sys) (i : Nat), s.enabled i = true → (s.step i).work < s.work) ∧
+    (∀ sched, ∃ more,
+      ((LockOrder.Sys.ofScripts genProgram scripts admit).run (sched ++ more)).allFinished = true) ∧
+    ((LockOrder.Sys.ofScripts genProgram scripts admit).run
+      (rounds scripts.length (LockOrder.Sys.ofScripts genProgram scripts admit).work)).allFinished = true := by
+  have hord := LockOrder.ofScripts_ordered genProgram generated_programs_ordered scripts
+  refine ⟨LockOrder.work_decreases, fun sched => LockOrder.can_finish_ordered _ admit hord sched, ?_⟩
+  have := LockOrder.round_robin_finishes_ordered _ admit hord
+  simpa [LockOrder.Sys.ofScripts] using this
+
+/-- non-vacuity: a growing commit (thread 0) that has to wait for an open reader (thread 1), a writer that
+has to wait for the first writer and then reads (thread 2); everybody finishes, under the writer-preferring
+policy -/
+example :
+    let s := LockOrder.Sys.ofScripts genProgram
+      [[.write (some (.full true))], [.read], [.write (some (.full false)), .read]] false
+    let s1 := s.run (List.replicate 9 1 ++ List.replicate 9 0)
+    -- the reader is open, the first writer waits for M-write, the second for F
+    s1.enabled 0 = false ∧ s1.enabled 2 = false ∧ s1.enabled 1 = true ∧
+    (s1.run (List.replicate 3 1 ++ List.replicate 7 0 ++ List.replicate 24 2)).allFinished = true := by
+  decide
+
+/-! #### the order condition is not vacuous -/
+
+/-- `resize` taking the map-handle mutex before the map write lock -/
+def misorderedResize : List ResizeStep := [.fallocate, .lockData, .lockMapWrite, .mmap, .storeMap]
+
+/-- with that `resize` the growing commit is not `Ordered`, and it deadlocks against a reader that is
+beginning: the reader holds M-read and waits for D (to read the header), the writer holds D and waits
+for M-write.  Either admission policy. -/
+theorem misordered_resize_deadlocks (admit : Bool) :
+    let bad : Kind → List Act := program { genTables with resize := misorderedResize }
+    Ordered (bad (.write (some (.full true)))) = false ∧
+    let s := (LockOrder.Sys.ofScripts bad [[.write (some (.full true))], [.read]] admit).run
+      ([1] ++ List.replicate 10 0 ++ List.replicate 3 1)
+    s.allFinished = false ∧ ∀ i, s.enabled i = false := by
+  refine ⟨by decide, (LockOrder.Sys.stuck_iff _).mp ?_⟩
+  cases admit <;> decide
+
+/-- the generated programs, nested on one thread: a growing write transaction opened (and committed) while
+the same thread has a read transaction open -/
+def nestedWriteInRead : List Act :=
+  beginActs false Gen.beginSteps ++ genProgram (.write (some (.full true))) ++ dropActs false Gen.dropSteps
+
+/-- … is not `Ordered` (F is taken while M-read is held) and deadlocks all by itself: `resize` waits for
+the thread's own read lock -/
+theorem nested_write_in_read_deadlocks (admit : Bool) :
+    Ordered nestedWriteInRead = false ∧
+    let s := (LockOrder.Sys.init [nestedWriteInRead] admit).run (List.replicate 18 0)
+    s.allFinished = false ∧ ∀ i, s.enabled i = false := by
+  refine ⟨by decide, (LockOrder.Sys.stuck_iff _).mp ?_⟩
+  cases admit <;> decide
+
+/-- a second read transaction opened while the same thread has a read transaction open -/
+def nestedReadInRead : List Act :=
+  beginActs false Gen.beginSteps ++ genProgram .read ++ dropActs false Gen.dropSteps
+
+/-- … is not `Ordered` (M-read is taken while M-read is held); with the writer-preferring rwlock it
+deadlocks against a growing commit that arrives in between, with the reader-admitting one it does not:
+the two admission policies really differ in the model -/
+theorem nested_read_in_read_deadlocks :
+    Ordered nestedReadInRead = false ∧
+    (let s := (LockOrder.Sys.init [nestedReadInRead, genProgram (.write (some (.full true)))] false).run
+        (List.replicate 9 0 ++ List.replicate 9 1)
+     s.allFinished = false ∧ ∀ i, s.enabled i = false) ∧
+    ((LockOrder.Sys.init [nestedReadInRead, genProgram (.write (some (.full true)))] true).run
+        (List.replicate 9 0 ++ List.replicate 9 1 ++ List.replicate 15 0 ++ List.replicate 7 1)).allFinished
+      = true := by
+  refine ⟨by decide, (LockOrder.Sys.stuck_iff _).mp (by decide), by decide⟩
 
 end Jamm.Props.C09
